@@ -4,7 +4,7 @@
    Vocabulary: Edit/Kustfile.v (text side: comment scanner, marshal), Edit/Kust.v (the record =
    the in-memory model), Edit/Fix.v (FixKustomization), Edit/Ops.v (one function per sub-command),
    Edit/Cmd.v (one invocation on a file: Read -> command -> Write). *)
-From KV Require Import Edit.Cmd Edit.KustfileProofs Edit.OpsProofs Edit.CmdProofs.
+From KV Require Import Edit.Cmd Edit.KustfileProofs Edit.AssocProofs Edit.OpsProofs Edit.CmdProofs Edit.LawsProofs.
 Local Open Scope list_scope.
 
 (* ---- content: file content after any command sequence = in-memory model ----
@@ -35,6 +35,103 @@ Theorem C17_frame :
     apply_op e (Ok k) o = Ok (Some k') -> ~ In n (addressed o) -> get n k' = get n k.
 Proof. exact apply_op_frame. Qed.
 Print Assumptions C17_frame.
+
+(* ---- set commands are idempotent ----
+   on the in-memory model, including the Write/Read round trip between the two invocations
+   (model_step = command, then canon, then FixKustomization).  Guards the code really needs:
+   k is a state as Read returns it (FixKustomization applied: with a non-empty imageTags the second
+   `set image` would see a different list) and the two label maps are key-sorted (always true of
+   values decoded from a file; the model represents Go maps as sorted association lists).
+   All 8 set commands: label, annotation, buildmetadata, image, replicas, namespace, nameprefix,
+   namesuffix.  A command that fails the first time fails the second time too (state unchanged). *)
+Theorem C17_set_idempotent :
+  forall e k o, is_set o = true -> fixed k -> maps_sorted k ->
+    model_step e (model_step e k o) o = model_step e k o.
+Proof. exact set_idempotent. Qed.
+Print Assumptions C17_set_idempotent.
+
+(* ---- add followed by the matching remove restores the content ----
+   N k = FixKustomization (canon k) is the content of a file holding k after one Write/Read round
+   trip (N k = k for every state reached after the first write). One theorem per add/remove pair the
+   CLI has (there is no `remove component|generator|base`); guards are the ones the code needs:
+   the added item was absent, a literal (no glob meta characters, no comma), not the kustomization
+   file itself, and the add succeeded. *)
+Theorem C17_add_remove_inverse_resource :
+  forall e k r nv k1,
+    fixed k -> has_meta r = false -> str_in r (k_resources k) = false -> String.eqb (e_kpath e) r = false ->
+    apply_op e (Ok k) (AddResource [r] nv) = Ok (Some k1) ->
+    model_step e (model_step e k (AddResource [r] nv)) (RemoveResource [r]) = N k.
+Proof. exact add_remove_resource. Qed.
+Print Assumptions C17_add_remove_inverse_resource.
+
+Theorem C17_add_remove_inverse_transformer :
+  forall e k t k1,
+    has_meta t = false -> str_in t (k_transformers k) = false ->
+    apply_op e (Ok k) (AddTransformer [t]) = Ok (Some k1) ->
+    model_step e (model_step e k (AddTransformer [t])) (RemoveTransformer [t]) = N k.
+Proof. exact add_remove_transformer. Qed.
+Print Assumptions C17_add_remove_inverse_transformer.
+
+Theorem C17_add_remove_inverse_buildmetadata :
+  forall e k args k1,
+    apply_op e (Ok k) (AddBuildMetadata args) = Ok (Some k1) ->
+    model_step e (model_step e k (AddBuildMetadata args)) (RemoveBuildMetadata args) = N k.
+Proof. exact add_remove_buildmetadata. Qed.
+Print Assumptions C17_add_remove_inverse_buildmetadata.
+
+Theorem C17_add_remove_inverse_label :
+  forall e k a key v,
+    sorted_o (k_commonLabels k) ->
+    convert_slice_to_map [a] [] = Ok [(key, v)] ->
+    split_on ","%char key = [key] -> String.eqb key "" = false ->
+    assoc_get key (mapo_or_empty (k_commonLabels k)) = None ->
+    model_step e (model_step e k (AddLabel [a] false false false)) (RemoveLabel [key] false) = N k.
+Proof. exact add_remove_label. Qed.
+Print Assumptions C17_add_remove_inverse_label.
+
+Theorem C17_add_remove_inverse_annotation :
+  forall e k a key v,
+    sorted_o (k_commonAnnotations k) ->
+    convert_slice_to_map [a] [] = Ok [(key, v)] ->
+    split_on ","%char key = [key] -> String.eqb key "" = false ->
+    assoc_get key (mapo_or_empty (k_commonAnnotations k)) = None ->
+    model_step e (model_step e k (AddAnnotation [a] false)) (RemoveAnnotation [key] false) = N k.
+Proof. exact add_remove_annotation. Qed.
+Print Assumptions C17_add_remove_inverse_annotation.
+
+Theorem C17_add_remove_inverse_configmap :
+  forall e k fl name k1,
+    cf_args fl = [name] -> split_on ","%char name = [name] ->
+    find_gen name (cf_namespace fl) (k_configMapGenerator k) = None ->
+    apply_op e (Ok k) (AddConfigMap fl) = Ok (Some k1) ->
+    model_step e (model_step e k (AddConfigMap fl)) (RemoveConfigMap [name] (cf_namespace fl)) = N k.
+Proof. exact add_remove_configmap. Qed.
+Print Assumptions C17_add_remove_inverse_configmap.
+
+Theorem C17_add_remove_inverse_secret :
+  forall e k fl name k1,
+    cf_args fl = [name] -> split_on ","%char name = [name] ->
+    find_gen name (cf_namespace fl) (k_secretGenerator k) = None ->
+    apply_op e (Ok k) (AddSecret fl) = Ok (Some k1) ->
+    model_step e (model_step e k (AddSecret fl)) (RemoveSecret [name] (cf_namespace fl)) = N k.
+Proof. exact add_remove_secret. Qed.
+Print Assumptions C17_add_remove_inverse_secret.
+
+(* `remove patch` deletes EVERY patch equal to the flags, and two patches that differ only by an
+   explicit empty `options: {}` become equal once written and read back; the guard therefore asks
+   that no existing patch equals the new one after canon. *)
+Theorem C17_add_remove_inverse_patch :
+  forall e k path ptch target k1,
+    existsb (fun q => patch_equals (canon_patch q) (cli_patch path ptch target)) (k_patches k) = false ->
+    apply_op e (Ok k) (AddPatch path ptch target) = Ok (Some k1) ->
+    model_step e (model_step e k (AddPatch path ptch target)) (RemovePatch path ptch target) = N k.
+Proof. exact add_remove_patch. Qed.
+Print Assumptions C17_add_remove_inverse_patch.
+
+(* N is a projection: a second round trip changes nothing; every state after a write is fixed *)
+Theorem C17_roundtrip_idempotent : forall k, N (N k) = N k.
+Proof. exact N_idem. Qed.
+Print Assumptions C17_roundtrip_idempotent.
 
 (* ---- comments ----
    Full statement (FALSE for the current code):
